@@ -8,7 +8,12 @@ ASSUMPTIONS = [
     "theorems: Props/C16.v — rejected evaluations are no-ops (with C09) and the frame/restore structure of evaluate_function",
     "tie: engine.compare on the injected histories",
     "oracle on the implementation: EVAL of each syntactically pure function injected at every boundary of explored "
-    "histories, lock-step with the un-injected history; the save must agree except for visit/turn entries of the function",
+    "histories, lock-step with the un-injected history; the save must agree except for visit/turn entries of the function "
+    "and of the functions it calls",
+    "oracle on the implementation: a pure function's result (value, text, or refusal) depends on its arguments and the "
+    "globals only — the same call is compared across all boundaries with equal globals (call-stack shape probed with "
+    "STACKINFO: inside forked / nested threads, tunnels, functions in progress, at choice points) and with a fresh "
+    "story whose globals were set to the same values; this is what judges evaluations that FAIL",
 ]
 
 
@@ -45,6 +50,9 @@ def pure_functions(p):
         for k in p["knots"]:
             if re.search(r"\b" + re.escape(k) + r"\b", txt):
                 bad = True
+        for g in names:        # a function name that is not a call is a read count
+            if re.search(r"\b" + re.escape(g) + r"\b(?!\s*\()", txt):
+                bad = True
         pure[f] = not bad
     changed = True
     while changed:
@@ -63,12 +71,170 @@ def pure_functions(p):
 
 ARGS = [{"i": 3}, {"s": "arg"}, {"b": True}, {"f": 2.5}, {"i": -1}]
 
+# generator weights of this check: threads whose knots print several lines (the story then pauses INSIDE a
+# forked thread, with more than one thread on the call stack), tunnels, and functions that are mostly pure
+GEN_WEIGHTS = dict(n_threads=(1, 2), thread=1.5, thread_stmts=(1, 3), n_tunnels=(1, 2), tunnel=1.2,
+                   n_funcs=(1, 2), pure_func=0.6, func_text=0.6, func_stmts=(0, 3))
 
-def strip_fn_counts(save, fn):
-    # visit/turn entries of the function's own containers may change (the property says so); the
-    # thread's previousContentObject is bookkeeping that the next step overwrites before use
+# programs of this check's own corpus: every call-stack shape at which the host can make the call
+# (inside a forked thread, a nested thread, a thread forked in a tunnel, a tunnel, a function that the
+# story itself is in the middle of) x functions that run off their end / return / print several lines
+EXTRA = [
+    """VAR n = 2
+-> start
+=== start ===
+<- side
+Main line {n}.
+-> tun ->
+After tunnel.
+{two(1)}
+* [go] -> fin
+=== side ===
+Side one.
+Side two.
+~ n = n + 1
+Side three {n}.
+-> DONE
+=== tun ===
+Tunnel one.
+Tunnel two.
+->->
+=== fin ===
+<- side
+Done.
+-> END
+=== function greet() ===
+Hi there.
+=== function five() ===
+~ return 5
+=== function two(a) ===
+first {a}
+second {a + n}
+~ return a
+""",
+    """VAR who = "you"
+-> top
+=== top ===
+<- outer
+Top line.
+-> t1 ->
+End line.
++ [again] -> top
+* [stop] -> END
+=== outer ===
+Outer one.
+<- inner
+Outer two.
+-> DONE
+=== inner ===
+Inner one.
+Inner two for {who}.
+-> DONE
+=== t1 ===
+<- inner
+T line.
+->->
+=== function add(a, b) ===
+~ return a + b
+=== function shout(a) ===
+{a}!
+~ return 1
+=== function nest(a) ===
+~ temp r = add(a, 1)
+{shout(r)}
+""",
+    # minimised form of the seeded change C16/can_pop_thread (regression)
+    """<- side
+Main line.
+-> END
+== side
+Side one.
+Side two.
+-> DONE
+== function greet()
+Hi there.
+== function five()
+~ return 5
+""",
+]
+
+
+def global_names(p):
+    return list(p["globals"]) + re.findall(r"^\s*LIST\s+([A-Za-z_][A-Za-z0-9_]*)\s*=", p["ink"], re.M)
+
+
+def call_closure(p, fn):
+    """fn and the functions it calls, transitively"""
+    blocks = function_blocks(p["ink"])
+    seen, todo = set(), [fn]
+    while todo:
+        f = todo.pop()
+        if f in seen:
+            continue
+        seen.add(f)
+        txt = "\n".join(blocks.get(f, []))
+        todo += [g for g in blocks if g not in seen and re.search(r"\b" + re.escape(g) + r"\s*\(", txt)]
+    return sorted(seen)
+
+
+def strip_fn_counts(save, fns):
+    # visit/turn entries of the containers of the function and of the functions it calls may change (the
+    # property says so); the thread's previousContentObject is bookkeeping that the next step overwrites before use
     save = re.sub(r'"previousContentObject":"[^"]*",?', "", save)
-    return re.sub(r'"' + re.escape(fn) + r'[^"]*":-?\d+,?', "", save)
+    for fn in fns:
+        save = re.sub(r'"' + re.escape(fn) + r'(\.[^"]*)?":-?\d+,?', "", save)
+    return save
+
+
+def probe_case(p, st, path, ops, gvars):
+    """the history with STACKINFO + GETVAR of every global after the setup and after every op: the shape of
+    the call stack and the values of the globals at every boundary (both read-only observations)"""
+    blk = [["STACKINFO"]] + [["GETVAR", g] for g in gvars]
+    script = list(st) + blk
+    for o in ops:
+        script += [o] + blk
+    return dict(id=f"{p['id']}|{path}|probe", ink=p["ink"], seed=42, fuel=30000, script=script)
+
+
+def probe_read(res, n_setup, n_ops, n_vars):
+    """-> per boundary k (0..n_ops): (shape flags, globals snapshot) or None when unreadable"""
+    out = [None] * (n_ops + 1)
+    if not res or res.get("crash") is not None or res.get("out_of_fuel"):
+        return out
+    L, B = res["lines"], 1 + n_vars
+    if len(L) != 1 + n_setup + B + n_ops * (1 + B):
+        return out
+    for k in range(n_ops + 1):
+        at = 1 + n_setup + (0 if k == 0 else B + (k - 1) * (1 + B) + 1)
+        _, info, _ = hist.split_line(L[at])
+        m = re.match(r"ok\(threads=\[([0-9,]*)\] flows=(\d+) choices=(\d+) eval=(\d+)", info)
+        if not m:
+            continue
+        depths = [int(x) for x in m.group(1).split(",") if x]
+        flags = set()
+        if len(depths) > 1:
+            flags.add("thread")
+        if depths and depths[-1] > 1:
+            flags.add("nested")        # a tunnel or a function of the story is in progress
+        if int(m.group(3)) > 0:
+            flags.add("choices")
+        snap = tuple(hist.split_line(L[at + 1 + j])[1] for j in range(n_vars))
+        out[k] = (frozenset(flags), snap)
+    return out
+
+
+def parse_shown(v):
+    """GETVAR rendering -> inkdrive value literal (None: not expressible)"""
+    m = re.match(r"ok\(i:(-?\d+)\)$", v)
+    if m:
+        return {"i": int(m.group(1))}
+    m = re.match(r"ok\(b:(true|false)\)$", v)
+    if m:
+        return {"b": m.group(1) == "true"}
+    m = re.match(r'ok\(s:"([^"\\]*)"\)$', v)
+    if m:
+        return {"s": m.group(1)}
+    return None
 
 
 def run(ctx):
@@ -77,38 +243,87 @@ def run(ctx):
     ctx.coverage["generated_tables"] = sw
     pr = ctx.proof("theories/Props/C16.v")
     nprog = 12 if ctx.quick() else 80
-    progs = [p for p in hist.programs(ctx, nprog) if pure_functions(p)]
+    progs = hist.programs(ctx, nprog, **GEN_WEIGHTS)
+    progs += [dict(id=f"c16extra{i}", ink=src, **hist.analyse(src)) for i, src in enumerate(EXTRA)]
+    progs = [p for p in progs if pure_functions(p)]
     trees = hist.explore_tree(exe, progs, depth=3, max_paths=20)
-    cases, meta = [], {}
+    # ---- histories and their probes (call-stack shape + globals at every boundary)
+    hs = []
     for p in progs:
         t = trees.get(p["id"])
         if not t:
             continue
         st = hist.setup_ops(p) + [["SWITCH", "side"]] * (1 if ctx.rng.random() < 0.3 else 0)
         for (path, ops) in hist.histories(ctx, t, 2 if ctx.quick() else 4):
-            bid = f"{p['id']}|{path}|base"
-            cases.append(dict(id=bid, ink=p["ink"], seed=42, fuel=30000, script=st + ops + [["SHOWSAVE"]]))
-            meta[bid] = dict(kind="base")
-            positions = list(range(len(ops) + 1))
-            if ctx.quick() and len(positions) > 5:
-                positions = sorted(ctx.rng.sample(positions, 5))
-            for k in positions:
-                for f, n in pure_functions(p):
-                    args = [ctx.rng.choice(ARGS[:3] if n else ARGS) for _ in range(n)]
-                    call = ["EVAL", f, args]
-                    cid = f"{p['id']}|{path}|{k}|{f}"
-                    cases.append(dict(id=cid, ink=p["ink"], seed=42, fuel=30000,
-                                      script=st + ops[:k] + [call, call] + ops[k:] + [["SHOWSAVE"]]))
-                    meta[cid] = dict(kind="inj", base=bid, k=k, fn=f, n_setup=len(st), prog=p)
+            hs.append(dict(p=p, st=st, path=path, ops=ops, gvars=global_names(p)))
+    pres = vlib.run_inkdrive([probe_case(h["p"], h["st"], h["path"], h["ops"], h["gvars"]) for h in hs], exe)
+    cases, meta, by_id = [], {}, {}
+    shape_count = dict(thread=0, nested=0, choices=0, plain=0, unknown=0)
+    refs = {}
+    for h, prb in zip(hs, pres):
+        p, st, path, ops = h["p"], h["st"], h["path"], h["ops"]
+        info = probe_read(prb, len(st), len(ops), len(h["gvars"]))
+        bid = f"{p['id']}|{path}|base"
+        cases.append(dict(id=bid, ink=p["ink"], seed=42, fuel=30000, script=st + ops + [["SHOWSAVE"]]))
+        meta[bid] = dict(kind="base")
+        positions = list(range(len(ops) + 1))
+        if ctx.quick() and len(positions) > 6:
+            # the start, then boundaries with a non-trivial call stack (inside a thread / tunnel / function), then any
+            special = [k for k in positions if info[k] and (info[k][0] & {"thread", "nested"})]
+            ctx.rng.shuffle(special)
+            keep = [0] + [k for k in special if k != 0][:3]
+            rest = [k for k in positions if k not in keep]
+            keep += ctx.rng.sample(rest, min(len(rest), 6 - len(keep)))
+            positions = sorted(keep)
+        fargs = {f: [ctx.rng.choice(ARGS[:3] if n else ARGS) for _ in range(n)] for f, n in pure_functions(p)}
+        for k in positions:
+            flags = info[k][0] if info[k] else None
+            for fl in (flags if flags else (["unknown"] if flags is None else ["plain"])):
+                shape_count[fl] += 1
+            for f, n in pure_functions(p):
+                # the same arguments at every boundary of the history, so that results are comparable
+                args = fargs[f]
+                call = ["EVAL", f, args]
+                cid = f"{p['id']}|{path}|{k}|{f}"
+                cases.append(dict(id=cid, ink=p["ink"], seed=42, fuel=30000,
+                                  script=st + ops[:k] + [call, call] + ops[k:] + [["SHOWSAVE"]]))
+                meta[cid] = dict(kind="inj", base=bid, k=k, fn=f, n_setup=len(st), prog=p, flags=flags,
+                                 group=(p["id"], json.dumps(st), f, json.dumps(args), info[k][1]) if info[k] else None)
+                if info[k]:
+                    # reference: the same call on a FRESH story whose globals were set to the same values
+                    gk = meta[cid]["group"]
+                    if gk not in refs:
+                        sets = [["SETVAR", g, parse_shown(v)] for g, v in zip(h["gvars"], info[k][1]) if parse_shown(v)]
+                        rid = f"{p['id']}|ref{len(refs)}|{f}"
+                        refs[gk] = rid
+                        cases.append(dict(id=rid, ink=p["ink"], seed=42, fuel=30000,
+                                          script=st + sets + [["GETVAR", g] for g in h["gvars"]] + [call]))
+                        meta[rid] = dict(kind="ref", group=gk, n_setup=len(st), n_sets=len(sets), n_vars=len(h["gvars"]))
+    by_id = {c["id"]: c for c in cases}
     res = {r["id"]: r for r in vlib.run_inkdrive(cases, exe)}
     fails, n_checked = [], 0
+    groups = {}
     for cid, m in meta.items():
+        if m["kind"] == "ref":
+            r = res.get(cid)
+            if not r or r.get("crash") is not None or r.get("out_of_fuel"):
+                continue
+            at = 1 + m["n_setup"] + m["n_sets"]
+            L = r["lines"]
+            if len(L) != at + m["n_vars"] + 1:
+                continue
+            # only a reference if the fresh story really has the same globals (values that cannot be written
+            # as a literal — lists, divert targets — must happen to be at their initial value)
+            if tuple(hist.split_line(l)[1] for l in L[at:at + m["n_vars"]]) != m["group"][4]:
+                continue
+            groups.setdefault(m["group"], []).append((hist.split_line(L[-1])[1], cid))
+            continue
         if m["kind"] != "inj":
             continue
         b, r = res.get(m["base"]), res.get(cid)
         if not b or not r or b.get("out_of_fuel") or r.get("out_of_fuel") or b.get("crash") is not None:
             continue
-        case = next(c for c in cases if c["id"] == cid)
+        case = by_id[cid]
         bl, il = b["lines"], r["lines"]
         if r.get("crash") is not None or len(il) != len(bl) + 2:
             fails.append(dict(key="crash", case=case)); continue
@@ -117,11 +332,14 @@ def run(ctx):
         _, r1, s1 = hist.split_line(il[at])
         _, r2, s2 = hist.split_line(il[at + 1])
         n_checked += 1
+        if m["group"] is not None:
+            groups.setdefault(m["group"], []).append((r1, cid))
         bad = None
         if r1.startswith("panic") or r2.startswith("panic"):
             bad = "panics"
         elif not r1.startswith("ok("):
-            # an error inside the function (type error with this argument) is not C16's subject
+            # an error inside the function (type error with this argument) is not C16's subject — unless
+            # the same call succeeds elsewhere with the same globals: see the group comparison below
             continue
         elif r1 != r2:
             bad = "result-not-repeatable"
@@ -131,23 +349,59 @@ def run(ctx):
             for j in range(at, len(bl) - 1):
                 if bl[j] != il[j + 2]:
                     bad = "later-behaviour-differs"; break
-            if not bad and strip_fn_counts(bl[-1], m["fn"]) != strip_fn_counts(il[-1], m["fn"]):
+            if not bad and strip_fn_counts(bl[-1], call_closure(m["prog"], m["fn"])) != \
+                    strip_fn_counts(il[-1], call_closure(m["prog"], m["fn"])):
                 bad = "saved-state-differs"
         if bad:
             fails.append(dict(key=f"{bad}", case=case, function=m["fn"], injected_at=m["k"],
                               eval_lines=il[at:at + 2], before=bl[at - 1]))
-    sample = [c for c in cases if meta[c["id"]]["kind"] == "inj"]
-    ctx.rng.shuffle(sample)
-    sample = sample[: (80 if ctx.quick() else 1000)]
+    # ---- a pure function's value and text depend on its arguments and the globals only: the same call with the
+    # same globals gives the same result (or the same refusal) at every boundary of every history and on a
+    # fresh story.  This is what judges an evaluation that FAILS: it must fail everywhere.
+    n_groups = n_cmp = 0
+    for gk, members in groups.items():
+        if len(members) < 2:
+            continue
+        n_groups += 1
+        n_cmp += len(members)
+        vals = {}
+        for r1, cid in members:
+            vals.setdefault(r1, []).append(cid)
+        if len(vals) < 2:
+            continue
+        # the odd one out: a failing evaluation among succeeding ones first, else the rarest result at a boundary
+        order = sorted(vals, key=lambda v: (v.startswith("ok("), len(vals[v])))
+        dev = next((c for v in order for c in vals[v] if meta[c]["kind"] == "inj"), None)
+        if dev is None:
+            continue
+        dres = next(v for v in vals if dev in vals[v])
+        wit = next(c for v in vals if v != dres for c in vals[v])
+        wres = next(v for v in vals if wit in vals[v])
+        fails.append(dict(key="result-depends-on-position", case=by_id[dev], function=meta[dev]["fn"],
+                          injected_at=meta[dev]["k"], call_stack_shape=sorted(meta[dev]["flags"] or []),
+                          result=dres, globals=list(gk[4]),
+                          same_call_elsewhere=dict(result=wres, kind=meta[wit]["kind"], script=by_id[wit]["script"])))
+    inj = [c for c in cases if meta[c["id"]]["kind"] == "inj"]
+    ctx.rng.shuffle(inj)
+    # the correspondence sample: boundaries with a non-trivial call stack first
+    nm = 80 if ctx.quick() else 1000
+    special = [c for c in inj if meta[c["id"]]["flags"] and (meta[c["id"]]["flags"] & {"thread", "nested"})]
+    sample = special[: nm // 2]
+    sample += [c for c in inj if c not in sample][: nm - len(sample)]
     mcases = [dict(c, script=c["script"][:-1], id="m:" + c["id"]) for c in sample]
     cres = engine.compare(mcases, exe, sw)
     mism = [r for r in cres if r["status"] in ("mismatch", "model-error")]
     agree = sum(1 for r in cres if r["status"] == "agree")
     ctx.coverage.update(dict(
         evaluations=len(cases), distinct_nontrivial=n_checked,
-        rule="histories along explored paths x every boundary x each syntactically pure function (twice in a row); "
-             "non-trivial = the function evaluated successfully and the lock-step comparison ran",
+        rule="histories along explored paths x every boundary (quick: the start, up to 3 boundaries inside a thread / "
+             "tunnel / function, random others) x each syntactically pure function (twice in a row); "
+             "non-trivial = the evaluation ran and was compared (lock-step when it succeeded, position groups always)",
         samples=[cases[1]["script"] if len(cases) > 1 else []],
+        boundaries_by_call_stack_shape=shape_count, position_groups_compared=n_groups,
+        evaluations_in_position_groups=n_cmp, fresh_story_references=sum(1 for m in meta.values() if m["kind"] == "ref"),
+        correspondence_cases_inside_thread_or_nested=sum(
+            1 for c in sample if meta[c["id"]]["flags"] and (meta[c["id"]]["flags"] & {"thread", "nested"})),
         traces_validated_against_impl=agree, correspondence_mismatches=len(mism), programs=len(progs)))
     seen = set()
     for f in fails:
